@@ -9,6 +9,10 @@
 //	         the canonical graph goes to the strict part
 //	mode c : <graph6> is replaced by a number n: all labelled graphs on n vertices are
 //	         canonised and the number of distinct canonical graphs is observed
+//	mode r : refinement alone (hook graph.VerifRefine): the tokens are "cls=<classes>" ("-" = none,
+//	         else "0,3|1|2,4") and "picks=<k>,<k>,..." (indices into the first non-singleton
+//	         cell); the projected observation is the ordered partition after every refinement
+//	         and is compared with refine_run of the extracted model
 //	tok    : a relabelling "p0,p1,...,p(n-1)" (the copy h has h(i,j) = g(p_i,p_j)), or "all"
 //	         (all n! relabellings), or "rand:<seed>:<count>" (count relabellings from splitmix64(seed))
 //
@@ -151,6 +155,94 @@ func (c *checker) relabelling(p []int, both bool, idx int) {
 	}
 }
 
+// fastAll runs all n! relabellings through CanonicalIsomorphAllocated with one ordered partition
+// (Reset before each call) and one storage, on neighbourhood lists built directly from the
+// relabelled adjacency matrix; every 61st relabelling also goes through the public path (fresh
+// DenseGraph or SparseGraph, CanonicalIsomorph).  A disagreement found on the reused storage is
+// re-examined on the public path, and reported as "reuse" when only the reused storage shows it.
+func (c *checker) fastAll(idx int) int {
+	g, n := c.g, c.g.N
+	m := g.M()
+	op := graph.NewOrderedPartition(n, m, nil)
+	st := graph.NewStorage(n, m)
+	opts := new(graph.CanonicalOptions)
+	nb := make([][]int, n)
+	for i := range nb {
+		nb[i] = make([]int, 0, n)
+	}
+	bits := func(q []int) uint64 {
+		var k uint64
+		for j := 1; j < n; j++ {
+			for i := 0; i < j; i++ {
+				k <<= 1
+				if g.Adj[q[i]][q[j]] {
+					k |= 1
+				}
+			}
+		}
+		return k
+	}
+	var want uint64
+	cg := cx.MustGraph6(c.key0)
+	for j := 1; j < n; j++ {
+		for i := 0; i < j; i++ {
+			want <<= 1
+			if cg.Adj[i][j] {
+				want |= 1
+			}
+		}
+	}
+	p := cx.Identity(n)
+	q := make([]int, n)
+	for {
+		if !cx.IsIdentity(p) {
+			c.nonid++
+		}
+		for i := 0; i < n; i++ {
+			nb[i] = nb[i][:0]
+			for j := 0; j < n; j++ {
+				if g.Adj[p[i]][p[j]] {
+					nb[i] = append(nb[i], j)
+				}
+			}
+		}
+		bad := false
+		var perm []int
+		if msg := guard(func() {
+			op.Reset(n, m, nil)
+			*opts = graph.CanonicalOptions{}
+			perm, _, _ = graph.CanonicalIsomorphAllocated(n, m, nb, op, st, opts)
+		}); msg != "" {
+			bad = true
+			// a panic can leave the storage in any state
+			op = graph.NewOrderedPartition(n, m, nil)
+			st = graph.NewStorage(n, m)
+		} else if !cx.IsPerm(perm, n) {
+			bad = true
+		} else {
+			for i := range q {
+				q[i] = p[perm[i]]
+			}
+			bad = bits(q) != want
+		}
+		c.evals++
+		if bad {
+			before := len(c.viol)
+			c.relabelling(p, true, 0)
+			if len(c.viol) == before {
+				c.fail("reuse", p, "CanonicalIsomorphAllocated with a reset partition and reused storage gives a different canonical graph for %s relabelled by %v than a fresh call", c.g6, p)
+			}
+		} else if idx%61 == 0 {
+			c.relabelling(p, false, idx/61)
+		}
+		idx++
+		if !cx.NextPerm(p) {
+			break
+		}
+	}
+	return idx
+}
+
 func execGraph(mode, fam, g6 string, toks []string) hx.Result {
 	g, err := cx.FromGraph6(g6)
 	if err != nil {
@@ -176,6 +268,26 @@ func execGraph(mode, fam, g6 string, toks []string) hx.Result {
 	}
 	if c.key0 == "" {
 		return hx.Result{Obs: "panic", Buckets: []string{bucket(n), "mode:" + mode}, Viol: c.viol}
+	}
+	// The canonical graph is a choice the property leaves open.  When it differs from the one of
+	// the reference (Go transcription of the Coq model, same leaf budget as the generator) the
+	// property itself is searched: all n! relabellings (n <= 9) or 4000 random ones.  If the
+	// search finds nothing the case is not compared with the model ("skipped": a change of the
+	// canonical choice that keeps the invariance is not a violation of C01).
+	if mode == "m" {
+		if p, _, ok := cx.RefCanon(g, nil, 4*modelLeafBudget); ok && g.RelabelledGraph6(p) != c.key0 {
+			if n <= 9 {
+				toks = append(toks, "all")
+			} else {
+				toks = append(toks, fmt.Sprintf("rand:%d:4000", 12345+n))
+			}
+			res := c.rest(mode, fam, toks)
+			if len(res.Viol) == 0 {
+				res.Obs = "skipped ## canonical graph " + c.key0 + " differs from the reference " + g.RelabelledGraph6(p) + "; no relabelling with a different canonical graph found"
+			}
+			res.Buckets = append(res.Buckets, "escalated")
+			return res
+		}
 	}
 	return c.rest(mode, fam, toks)
 }
@@ -205,6 +317,10 @@ func (c *checker) rest(mode, fam string, toks []string) hx.Result {
 	for _, t := range toks {
 		switch {
 		case t == "all":
+			if n >= 7 && n <= 11 {
+				idx = c.fastAll(idx)
+				break
+			}
 			p := cx.Identity(n)
 			for {
 				c.relabelling(p, false, idx)
@@ -235,16 +351,10 @@ func (c *checker) rest(mode, fam string, toks []string) hx.Result {
 		}
 	}
 	_, order := g.AutGroup(nil)
-	obs := "ok ## " + c.key0
+	// oracle-only cases observe nothing (the driver prints "ok" too); violations travel in Viol
+	obs := "ok"
 	if mode == "m" {
 		obs = c.key0
-	}
-	if len(c.viol) > 0 {
-		if mode == "m" {
-			obs = c.key0 + " ## violated"
-		} else {
-			obs = "ok ## violated " + c.key0
-		}
 	}
 	b := []string{bucket(n), "mode:" + mode}
 	if fam != "" {
@@ -316,7 +426,7 @@ func execCount(n int) hx.Result {
 	if cnt != classCount[n] && len(viol) == 0 {
 		viol = append(viol, hx.Fail(fmt.Sprintf("C01:classes:%d", n), "%d distinct canonical graphs over all labelled graphs on %d vertices, but there are %d isomorphism classes", cnt, n, classCount[n]))
 	}
-	return hx.Result{Obs: fmt.Sprintf("classes=%d", cnt), Nontrivial: n >= 2, Buckets: []string{bucket(n), "mode:c"}, Viol: viol}
+	return hx.Result{Obs: "ok", Nontrivial: n >= 2, Buckets: []string{bucket(n), "mode:c", fmt.Sprintf("classes(%d)=%d", n, cnt)}, Viol: viol}
 }
 
 // guard runs f; a panic of the library becomes a message
@@ -349,7 +459,100 @@ func exec(line string) hx.Result {
 		}
 		return execCount(n)
 	}
+	if mode == "r" {
+		return execRefine(fam, f[1], strings.Fields(f[2]))
+	}
 	return execGraph(mode, fam, f[1], strings.Fields(f[2]))
+}
+
+// refinement alone: equitableRefinementProcedure through the hook, on the neighbourhoods of the
+// dense and of the sparse representation
+func execRefine(fam, g6 string, toks []string) hx.Result {
+	g, err := cx.FromGraph6(g6)
+	if err != nil {
+		return hx.Result{Obs: "badcase"}
+	}
+	n := g.N
+	var cls [][]int
+	var picks []int
+	for _, t := range toks {
+		switch {
+		case strings.HasPrefix(t, "cls="):
+			cls, err = cx.ParseClasses(t[4:])
+		case strings.HasPrefix(t, "picks="):
+			picks, err = cx.ParsePerm(t[6:])
+		default:
+			return hx.Result{Obs: "badcase"}
+		}
+		if err != nil {
+			return hx.Result{Obs: "badcase"}
+		}
+	}
+	if cls != nil {
+		seen := make([]bool, n)
+		cnt := 0
+		for _, c := range cls {
+			if len(c) == 0 {
+				return hx.Result{Obs: "badcase"}
+			}
+			for _, v := range c {
+				if v < 0 || v >= n || seen[v] {
+					return hx.Result{Obs: "badcase"}
+				}
+				seen[v] = true
+				cnt++
+			}
+		}
+		if cnt != n {
+			return hx.Result{Obs: "badcase"}
+		}
+	}
+	var viol []hx.OracleViolation
+	run := func(h graph.Graph) (string, int) {
+		nb := make([][]int, n)
+		for i := range nb {
+			nb[i] = h.Neighbours(i)
+		}
+		// the classes are handed over as a copy: NewOrderedPartition must not depend on the caller's slices afterwards
+		var c2 [][]int
+		if cls != nil {
+			c2 = make([][]int, len(cls))
+			for i := range cls {
+				c2[i] = append([]int(nil), cls[i]...)
+			}
+		}
+		orders, divs, drained := graph.VerifRefine(n, nb, c2, picks)
+		var parts []string
+		cells := 0
+		for i := range orders {
+			if !cx.IsPerm(orders[i], n) && len(viol) < 2 {
+				viol = append(viol, hx.Fail("C01:refine-notperm:"+g6, "after refinement %d of %s the order %v is not a permutation", i, g6, orders[i]))
+			}
+			if !drained[i] && len(viol) < 2 {
+				viol = append(viol, hx.Fail("C01:refine-notdrained:"+g6, "binsToCheck is not empty after refinement %d of %s", i, g6))
+			}
+			parts = append(parts, cx.PermString(orders[i])+":"+cx.PermString(divs[i]))
+			cells = len(divs[i])
+		}
+		return strings.Join(parts, " / "), cells
+	}
+	od, cells := run(g.Dense())
+	os, _ := run(g.Sparse())
+	if od != os && len(viol) < 2 {
+		viol = append(viol, hx.Fail("C01:refine-representation:"+g6, "refinement of %s differs between the dense (%s) and the sparse (%s) neighbourhoods", g6, od, os))
+	}
+	start := 1
+	if cls != nil {
+		start = len(cls)
+	}
+	b := []string{bucket(n), "mode:r"}
+	if fam != "" {
+		b = append(b, "family:"+fam)
+	}
+	if cls != nil {
+		b = append(b, "classes")
+	}
+	return hx.Result{Obs: od, Nontrivial: cells > start, Buckets: b, Viol: viol}
 }
 
 // ---------------------------------------------------------------- generator
@@ -378,8 +581,8 @@ func gen(g *hx.Gen) {
 	emit("corpus", cx.MustGraph6("GhcqSK"), "7,6,1,3,4,5,0,2")
 	emit("corpus", cx.MustGraph6("G|WW}K"), "all")
 	emit("corpus", cx.MustGraph6("GhcqSK"), "all")
-	// exhaustive: all labelled graphs on at most 4 (5) vertices, all relabellings
-	maxExh := g.Pick(4, 5)
+	// exhaustive: all labelled graphs on at most 5 (6) vertices, all relabellings
+	maxExh := g.Pick(5, 6)
 	for n := 0; n <= maxExh; n++ {
 		e := n * (n - 1) / 2
 		for mask := 0; mask < 1<<uint(e); mask++ {
@@ -394,6 +597,10 @@ func gen(g *hx.Gen) {
 				}
 			}
 			emit("labelled", gr, "all")
+			// refinement alone on the same graphs: no classes with random picks, and random classes
+			if n >= 2 && (n <= 4 || mask%g.Pick(8, 16) == 0) {
+				emitRefine(g, "labelled", gr)
+			}
 		}
 	}
 	g.Exhaustive(fmt.Sprintf("all labelled graphs on n <= %d vertices x all n! relabellings x both representations", maxExh))
@@ -401,6 +608,26 @@ func gen(g *hx.Gen) {
 		g.Emit(fmt.Sprintf("c;%d;all", n))
 	}
 	g.Exhaustive(fmt.Sprintf("all labelled graphs on n <= %d vertices: number of distinct canonical graphs = number of isomorphism classes", g.Pick(5, 7)))
+	// all ordered partitions into classes of the labelled graphs on 4 vertices (every 3rd graph in the quick tier)
+	for mask := 0; mask < 64; mask++ {
+		if !g.Thorough() && mask%3 != 0 {
+			continue
+		}
+		gr := cx.New(4)
+		k := 0
+		for j := 1; j < 4; j++ {
+			for i := 0; i < j; i++ {
+				if mask>>uint(k)&1 == 1 {
+					gr.Add(i, j)
+				}
+				k++
+			}
+		}
+		for _, cls := range orderedPartitions(4) {
+			g.Emit("r:labelled;" + gr.Graph6() + ";cls=" + cx.ClassesString(cls) + " picks=" + randPicks(g, 2))
+		}
+	}
+	g.Exhaustive("refinement alone: labelled graphs on 4 vertices x all 75 ordered partitions into vertex classes")
 
 	rl := g.Pick(100, 300)
 	randTok := func() string { return fmt.Sprintf("rand:%d:%d", g.Rng.U64()>>1, rl) }
@@ -408,6 +635,9 @@ func gen(g *hx.Gen) {
 	str := cx.Structured(g.Pick(12, 17))
 	for _, ng := range str {
 		emit(ng.Family, ng.G.Relabel(g.Rng.Perm(ng.G.N)), randTok())
+		if ng.G.N >= 2 {
+			emitRefine(g, ng.Family, ng.G.Relabel(g.Rng.Perm(ng.G.N)))
+		}
 	}
 	// graphs on 8 vertices x all 8! relabellings: every structured graph on 8 vertices of the
 	// quick list up to 60, in the thorough tier all of them and those on 9 vertices
@@ -431,7 +661,11 @@ func gen(g *hx.Gen) {
 		if ng.G.N < 4 {
 			continue
 		}
-		emit("perturbed", cx.Perturb(g.Rng, ng.G, 1+g.Rng.Intn(2)).Relabel(g.Rng.Perm(ng.G.N)), randTok())
+		pg := cx.Perturb(g.Rng, ng.G, 1+g.Rng.Intn(2)).Relabel(g.Rng.Perm(ng.G.N))
+		emit("perturbed", pg, randTok())
+		if i%2 == 0 {
+			emitRefine(g, "perturbed", pg)
+		}
 	}
 	// random graphs at several densities, random regular graphs, random trees, random unions of equal components
 	dens := [][2]int{{1, 10}, {1, 4}, {1, 2}, {3, 4}, {9, 10}}
@@ -440,7 +674,9 @@ func gen(g *hx.Gen) {
 		switch g.Rng.Intn(5) {
 		case 0, 1:
 			d := dens[g.Rng.Intn(len(dens))]
-			emit("random", cx.RandomGnp(g.Rng, n, d[0], d[1]), randTok())
+			rg := cx.RandomGnp(g.Rng, n, d[0], d[1])
+			emit("random", rg, randTok())
+			emitRefine(g, "random", rg)
 		case 2:
 			emit("regular", cx.RandomRegular(g.Rng, n, 2+g.Rng.Intn(4)), randTok())
 		case 3:
@@ -464,20 +700,90 @@ func gen(g *hx.Gen) {
 				g.Note(fmt.Sprintf("ClassReps(%d) produced %d graphs, expected %d", n, len(reps), classCount[n]))
 			}
 			for _, r := range reps {
-				if n <= 7 {
-					emit("classrep", r, "all")
-				} else {
-					emit("classrep", r, fmt.Sprintf("rand:%d:1500", g.Rng.U64()>>1))
-				}
+				emit("classrep", r, "all")
 			}
 		}
-		g.Exhaustive("one representative of every isomorphism class on n <= 7 vertices x all n! relabellings; every class on 8 vertices x 1500 random relabellings")
+		g.Exhaustive("one representative of every isomorphism class on n <= 8 vertices (1044 on 7, 12346 on 8) x all n! relabellings (n >= 7: reused storage, every 61st also through the public path)")
 	}
+}
+
+// a random sequence of at most k+n/3 picks (indices into the first non-singleton cell; the run stops at an index out of range)
+func randPicks(g *hx.Gen, k int) string {
+	l := g.Rng.Intn(k + 1)
+	p := make([]int, l)
+	for i := range p {
+		p[i] = g.Rng.Intn(3)
+		if g.Rng.Intn(4) == 0 {
+			p[i] = g.Rng.Intn(8)
+		}
+	}
+	if l == 0 {
+		return "-"
+	}
+	return cx.PermString(p)
+}
+
+// one or two refinement-only cases on gr: without classes, and with a random ordered partition into classes
+func emitRefine(g *hx.Gen, fam string, gr *cx.G) {
+	n := gr.N
+	head := "r:" + fam + ";" + gr.Graph6() + ";"
+	g.Emit(head + "cls=- picks=" + randPicks(g, 2+n/3))
+	if g.Rng.Intn(2) == 0 {
+		k := 1 + g.Rng.Intn(3)
+		if k > n {
+			k = n
+		}
+		cls := make([][]int, k)
+		p := g.Rng.Perm(n)
+		for i, v := range p {
+			j := i
+			if i >= k {
+				j = g.Rng.Intn(k)
+			}
+			cls[j] = append(cls[j], v)
+		}
+		g.Emit(head + "cls=" + cx.ClassesString(cls) + " picks=" + randPicks(g, 2+n/3))
+	}
+}
+
+// all ordered partitions of 0..n-1 into non-empty classes (members ascending)
+func orderedPartitions(n int) [][][]int {
+	var out [][][]int
+	lab := make([]int, n)
+	var rec func(i, k int)
+	rec = func(i, k int) {
+		if i == n {
+			// lab is a surjection onto 0..k-1 only if every label occurs
+			cnt := make([]int, k)
+			for _, l := range lab {
+				cnt[l]++
+			}
+			for _, c := range cnt {
+				if c == 0 {
+					return
+				}
+			}
+			cls := make([][]int, k)
+			for v, l := range lab {
+				cls[l] = append(cls[l], v)
+			}
+			out = append(out, cls)
+			return
+		}
+		for l := 0; l < k; l++ {
+			lab[i] = l
+			rec(i+1, k)
+		}
+	}
+	for k := 1; k <= n; k++ {
+		rec(0, k)
+	}
+	return out
 }
 
 func main() {
 	hx.Main(hx.Prop{
-		Rule:        "case = graph + set of relabellings; every relabelled copy is canonised (dense and sparse) and compared with the canonical graph of the original; non-trivial = the graph has a non-trivial automorphism group (independent backtracking search) and at least one relabelling is not the identity; distinct by case text",
+		Rule:        "modes m/o/c: case = graph + set of relabellings; every relabelled copy is canonised (dense and sparse) and compared with the canonical graph of the original; non-trivial = the graph has a non-trivial automorphism group (independent backtracking search) and at least one relabelling is not the identity; mode r: case = graph + vertex classes + picks, non-trivial = the refinement split at least one cell; distinct by case text",
 		Gen:         gen,
 		Exec:        exec,
 		CaseTimeout: 120 * time.Second,
